@@ -412,6 +412,17 @@ func pool(s *simrt.Sim, restart bool) {
 			}
 		})
 	}
+	if !restart && s.Choose(3) == 2 {
+		// the Shutdown comes only after everything has come to rest: on a running pool that nobody shuts down, every
+		// accepted task has to run (idle workers and a queued task do not go together)
+		s.Probe("shutdown-only-after-first-quiescence")
+		s.Quiesce()
+		for _, sb := range w.subs {
+			if sb.ret != 0 && sb.accepted && sb.starts == 0 {
+				s.Fail("liveness", "accepted-task-not-run-on-a-running-pool", "task %s was accepted (Submit in [%d,%d]) and everything has come to rest, but it has not run although the pool is running and no Shutdown was invoked", sb.id, sb.inv, sb.ret)
+			}
+		}
+	}
 	lifecycle("shutdowner", cycles, delay, true)
 	if restart && s.Choose(2) == 1 {
 		s.Probe("two-lifecycle-tasks")
